@@ -147,6 +147,10 @@ func newEventFromUntrustedJSONV2(eventJSON []byte, roomVersion IRoomVersion) (PD
 
 	res.roomVersion = roomVersion.Version()
 
+	if err := checkUntrustedEventShape(eventJSON); err != nil {
+		return nil, err
+	}
+
 	// We know the JSON must be valid here.
 	eventJSON = CanonicalJSONAssumeValid(eventJSON)
 
